@@ -282,3 +282,7 @@ impl<'a, T: 'a + IntervalBound + Ord> Removal<T> {
         }
     }
 }
+
+#[cfg(all(aws_s2n_quic_verif, test))]
+#[path = "/verif/harness/core/iset_remove.rs"]
+mod verif;
